@@ -17,6 +17,16 @@ EDGE_OTHER = ("\uABFF\uD7A4\uD7A5\uD7AF\uD7B0\uD7FB\u1100\u11FF\u3131\u318E\uFFA
               + "\u2660\u2662\u2664\u2666\u2763\u2765\U0001F493\U0001F494\U0001F49E\U0001F49F\U0001F5A4\U0001F90D"
               + "\uFF1F\uFF01\u00BF\u00A1\u203C\u2047\u2753\u2757\u037E")
 OTHER += EDGE_OTHER
+# sequences that text tools merge, split or drop (none of them means anything to the grammar): canonical decompositions of the
+# meaningful syllables into conjoining jamo, compatibility jamo, variation selectors / joiners / combining marks (after any
+# character), a byte order mark in the middle of the text
+import unicodedata as _ud
+NFD_SEQS = [_ud.normalize("NFD", c) for c in SINGLE + START + ENDS + FILLER] + ["\u1112\u1167\u11bc", "\u314e\u3155\u3147", "e\u0301"]
+JOINERS = ["\ufe0f", "\ufe0e", "\u200d", "\u200b", "\u0301", "\u20e3", "\ufeff", "\u00ad"]
+# characters whose code point, cut to 16 or 8 bits, is that of a meaningful character (a narrowing cast makes them aliases)
+TRUNC_ALIASES = "".join(chr(ord(c) + k) for c in SINGLE + START + ENDS + "\u2665\u2764\u2661" for k in (0x10000, 0x20000)) + \
+                "".join(chr(ord(c) + k) for c in ".?!" for k in (0x100, 0x10000, 0x2600))
+OTHER += TRUNC_ALIASES[::3]
 # Hangul syllables next to the ones with a meaning (plain syllables: they count inside a command and nowhere else)
 _special = set(SINGLE + START + ENDS + FILLER)
 OTHER_HANGUL += "".join(sorted(set(chr(ord(c) + d) for c in _special for d in (-1, 1, -28, 28) if chr(ord(c) + d) not in _special
@@ -118,7 +128,8 @@ def noise(rng, classes, n):
         elif cl == "ascii":
             out.append(rng.choice(ASCII))
         elif cl == "other":
-            out.append(rng.choice(OTHER))
+            r = rng.random()
+            out.extend(rng.choice(NFD_SEQS) if r < 0.08 else rng.choice(JOINERS) if r < 0.16 else rng.choice(TRUNC_ALIASES) if r < 0.22 else rng.choice(OTHER))
         elif cl == "end":
             out.append(rng.choice(ENDS))
         elif cl == "dot":
@@ -252,7 +263,13 @@ ALPHABET = SINGLE + START + ENDS + FILLER + HEARTS[:3] + "♡" + ".…" + "?!" +
 
 
 def gen_unstructured(rng, n):
-    return "".join(rng.choice(ALPHABET) for _ in range(n))
+    extra = NFD_SEQS[:6] + JOINERS[:4] + [KOREAN_PROSE[0]]
+    return "".join(rng.choice(extra) if rng.random() < 0.06 else rng.choice(ALPHABET) for _ in range(n))
+
+
+# plain Korean text as people write it in comments: it contains start syllables (하 흐 혀), ending syllables and fillers
+KOREAN_PROSE = ["하지만 이것은 주석", "흐르는 강물처럼 혀를 내밀다", "안녕하세요 아 어 으 하하하", "혀 하 흐", "끝 하", "엉뚱한 앙금 읏 윽",
+                "형식은 항상 핫하다 흑흑", "하앗! 흐읏? 혀엉."]
 
 
 def gen_malformed(rng, n):
@@ -268,8 +285,10 @@ def gen_malformed(rng, n):
             if 0xD800 <= c <= 0xDFFF:
                 c = 0xE000
             out.append(chr(c))
-        elif r < 0.75:
+        elif r < 0.73:
             out.append(rng.choice(EDGE_OTHER))
+        elif r < 0.75:
+            out.append(rng.choice(NFD_SEQS + JOINERS + list(TRUNC_ALIASES)))
         elif r < 0.8:
             out.append(chr(rng.choice([0, 0x7F, 0x80, 0x85, 0x7FF, 0x800, 0xFFFF, 0x10000, 0x10FFFF, 0xD7FF, 0xE000, 0x2028, 0x1680, 0x200B])))
         else:
